@@ -3,7 +3,7 @@
   facts about reachable states the property theorems of C08 are assembled from.
 -/
 import DymVerif.Lemmas.CoreLevUpdate
-namespace DymVerif.Core
+namespace DymVerif.Core.LevNs
 
 theorem step_end (s : St) (f : List (Nat × Nat)) : (step s (.end_ f)).1 = endBlock s f := rfl
 theorem step_begin (s : St) (dt : Nat) : (step s (.begin_ dt)).1 = beginBlock s dt := rfl
@@ -66,4 +66,4 @@ theorem run_append (p : Params) (ops ops' : List Op) :
     run p (ops ++ ops') = ops'.foldl (fun s o => (step s o).1) (run p ops) := by
   unfold run; rw [List.foldl_append]
 
-end DymVerif.Core
+end DymVerif.Core.LevNs
